@@ -490,6 +490,11 @@ pub fn run(ctx: &Ctx, rep: &mut Report) {
                     run_one(rep, &bytes, &origin, "lying-metadata");
                 }
             }
+            6 if rng.chance(1, 2) => {
+                // metadata blocks whose inner length / count fields are pushed to extremes
+                let (b, what) = super::c11::extreme_section(&mut rng);
+                run_one(rep, &b, &what, "metadata-extreme");
+            }
             6 => {
                 // raw random bytes, sometimes behind a valid marker + STREAMINFO
                 let n = rng.usize(0, 600);
